@@ -68,6 +68,10 @@ def templates(tier="quick"):
         ["out", "chk", "top", "top2"])
     add("cycle_inside_validation", [Variant("v0", [Stmt("out", ex=["src"], val=["c1"]), Stmt("c1", ex=["c2"]), Stmt("c2", ex=["c1"])])],
         ["out", "c1"])
+    # legacy self-referencing phony (tolerated) next to a real cycle through a later / earlier input
+    add("phony_selfref_then_cycle", [Variant("v0", [Stmt("a", ex=["a", "b"], phony=True), Stmt("b", ex=["a"])])], ["a", "b"])
+    add("phony_cycle_then_selfref", [Variant("v0", [Stmt("a", ex=["b", "a"], phony=True), Stmt("b", ex=["a"])])], ["a", "b"])
+    add("phony_selfref_acyclic", [Variant("v0", [Stmt("a", ex=["a", "b"], oo=["a"], phony=True), Stmt("b", ex=["s"]), Stmt("c", ex=["a"])])], ["a", "c"])
     add("phony_cycle", [Variant("v0", [Stmt("a", ex=["b"], phony=True), Stmt("b", ex=["a"], phony=True), Stmt("x", ex=["a"])])], ["a", "x"])
 
     # cycle closed by a discovered dependency: first build records it, then the manifest gains a
